@@ -307,7 +307,10 @@ class Verdict:
                 continue
             hit = None
             for k in open_entries:
-                if v["key"] == k["key"] or fnmatch.fnmatchcase(v["key"], k["key"]):
+                # a finding listed for the v2 generation never covers a violation of the root generation (keys Cxx/root/...)
+                # and vice versa: `*` in a glob must not reach across that boundary
+                same_gen = ("/root/" in v["key"]) == ("/root/" in k["key"])
+                if v["key"] == k["key"] or (same_gen and fnmatch.fnmatchcase(v["key"], k["key"])):
                     hit = k
                     break
             if hit is not None:
